@@ -219,7 +219,10 @@ class OrderSeqLoop:
 
     def next(self, env):
         self.H.trace.clear()
-        self.H.cur = object()
+        # an arbitrary order: any asset (inside or outside the universe of the day), any non-zero quantity
+        c = ctx()
+        self.H.cur = type('AnOrder', (), {'asset': SymKey(c.fresh('order_asset', K)), 'quantity': SymNum(c.fresh('order_quantity', R)),
+                                          'created_dt': None, 'order_id': 'an-order'})()
         return self.H.cur
 
     def preserved(self, env):
@@ -238,7 +241,7 @@ class _Orders:
 EXEC_LOOP = 'ExecutionHandler.__call__#for _#0'
 
 
-@harness('ExecutionHandler.__call__', props=['C04', 'C08', 'C07'], layer='L3',
+@harness('ExecutionHandler.__call__', props=['C04', 'C08', 'C07', 'C09'], layer='L3',
          functions=['ExecutionHandler.__init__', 'ExecutionHandler._apply_execution_algo_to_rebalances', 'ExecutionHandler.__call__',
                     'MarketOrderExecutionAlgorithm.__call__', 'QuantTradingSystem.__call__'])
 def exec_handler(c):
@@ -259,7 +262,8 @@ def exec_handler(c):
     orders = _Orders()
     algo = MarketOrderExecutionAlgorithm()
     c.ob('market-order-algorithm-returns-the-orders-unchanged', algo(dt, orders) is orders, props=['C08', 'C04'])
-    eh = ExecutionHandler(Broker(), pid, None, submit_orders=submit, execution_algo=algo)
+    from .common import UniverseStub
+    eh = ExecutionHandler(Broker(), pid, UniverseStub(c), submit_orders=submit, execution_algo=algo)
 
     def check():
         names = [t[0] for t in T]
